@@ -11,7 +11,12 @@ Protocol (one line = one history):
            "extend": "loads_and_changes"|"changes", "threshold": null|[num,den],
            "cookie": {"name","domain","path","secure","http_only","same_site","kind"},
            "crypto": {"alg": "none"|"sign"|"encrypt", "name": <cookie name the rule is registered for>}},
-   "requests": [{"src": "jar"|"none"|"tampered"|j, "expire": bool, "rem": secs, "ops": [[op, key?, value?], ...]}]}
+   "requests": [{"src": "jar"|"none"|"tampered"|j|{"parts": j, "client": {..}}, "expire": bool, "rem": secs,
+                 "ops": [[op, key?, value?], ...], "crypto"?: {...}}]}
+  crypto = {"alg", "name", "percent_encode"?, "key"?: n, "fallbacks"?: [["sign"|"encrypt", n], ...]}: the processor
+  in force (per request if given there: key / algorithm rotation between the requests of a history; keys are
+  numbers, equal numbers = the same key). src {"parts": j, "client"} = IncomingSession::from_parts(id of the j-th
+  issued cookie, client) -- no cookie involved.
 answer: {"r":"ok","reqs":[{"in": id|null, "res":[...], "fin":{...}, "log":[store ops], "store":[[id,{..}]], "leak":bool}]}
 
 The oracle below is a plain pair-of-maps reference (client map, server map, a few status bits; no ids, no
@@ -117,7 +122,18 @@ def gen_requests(rng, cfg, nreq=None):
 
 def gen(rng):
     cfg = gen_cfg(rng)
-    return {"cfg": cfg, "requests": gen_requests(rng, cfg)}
+    reqs = gen_requests(rng, cfg)
+    if rng.random() < 0.12:
+        # key rotation between requests (always encrypting): the previous key is kept as a fallback (85%), so the
+        # cookie written under the old processor must carry the state over; otherwise a new session starts
+        cur, nkey = dict(cfg["crypto"], percent_encode=True, key=0, fallbacks=[]), 1
+        for i, rq in enumerate(reqs):
+            if i > 0 and rng.random() < 0.5:
+                fb = ([["encrypt", cur["key"]]] if rng.random() < 0.85 else []) + cur["fallbacks"][:1]
+                cur = dict(cur, key=nkey, fallbacks=fb)
+                nkey += 1
+            rq["crypto"] = cur
+    return {"cfg": cfg, "requests": reqs}
 
 
 # ---- the reference: a pair of maps per session ---------------------------------------------------
@@ -138,9 +154,19 @@ class Ref:
 
     def request(self, rq):
         cfg = self.cfg
+        crypto = rq.get("crypto") or cfg["crypto"]
         src = rq.get("src", "jar")
-        presented = self.jar if src == "jar" else (None if src in ("none", "tampered") else
-                                                   (self.issued[src] if src < len(self.issued) else None))
+        # the cookie the client sends: (session name, client map, how it is protected on the wire)
+        if isinstance(src, dict):
+            sent = None
+            j = src.get("parts")
+            base = self.issued[j] if isinstance(j, int) and j < len(self.issued) else None
+            presented = (base[0], copy.deepcopy(src.get("client") or {})) if base is not None else None
+        else:
+            sent = self.jar if src == "jar" else (None if src in ("none", "tampered") else
+                                                  (self.issued[src] if src < len(self.issued) else None))
+            # ... and what the processor in force makes of it
+            presented = sent[:2] if sent is not None and readable(crypto, cfg["cookie"]["name"], sent[2]) else None
         if rq.get("expire") and presented is not None:
             self.world.pop(presented[0], None)
         S = {}
@@ -265,22 +291,77 @@ class Ref:
         else:
             fin = {"r": "none"}
             cookie = "keep"
-        # the cookie must get through the processor
-        alg, rule_name = cfg["crypto"]["alg"], cfg["crypto"].get("name")
+        # the cookie must get through the processor in force for this request
+        alg, rule_name = crypto["alg"], crypto.get("name")
         applies = alg != "none" and rule_name == cfg["cookie"]["name"]
         if fin["r"] in ("set", "removal"):
             if must_encrypt and not (applies and alg == "encrypt"):
                 fin, cookie = {"r": "err", "kind": "encryption-required"}, "keep"
             elif not applies:
                 fin, cookie = {"r": "err", "kind": "crypto-required"}, "keep"
-        self.jar = presented if cookie == "keep" else cookie
+        if isinstance(cookie, tuple):
+            cookie = cookie + (wire_form(crypto, cfg["cookie"]["name"]),)
+        self.jar = sent if cookie == "keep" else cookie
         self.issued.append(cookie if isinstance(cookie, tuple) else None)
+        # how the request got its session (for the input statistics of the checks)
+        if isinstance(src, dict):
+            how = "from_parts" if presented is not None else "from_parts:no-such-cookie"
+        elif sent is None:
+            how = "no-cookie"
+        elif presented is None:
+            how = "cookie-not-readable"
+        elif (sent[2]["prot"], sent[2]["key"]) != (crypto["alg"], crypto.get("key", 0)) and sent[2]["prot"] != "plain":
+            how = "cookie-read-through-fallback"
+        else:
+            how = "cookie"
         return {"presented": presented, "res": res, "fin": fin, "f7": f7, "had_rec": had_rec,
-                "world": copy.deepcopy(self.world)}
+                "world": copy.deepcopy(self.world), "crypto": crypto, "how": how, "cli_dirty": S["cli_dirty"]}
 
 
 def needs_pct(name):
     return any(ch in ' "<>`#?{}/:;=@[\\]^|%(),' or ord(ch) < 0x20 or ord(ch) > 0x7e for ch in name)
+
+
+# ---- cookies on the wire: written by one processor, read by a (possibly different) one -------------
+# (biscotti's documented behaviour: the rule of a cookie is looked up under the name as it travels; outgoing
+#  cookies use the rule's primary algorithm+key; incoming ones are tried against the primary, then the fallbacks;
+#  a cookie without a rule travels in plain text, percent-encoded if percent_encode is on)
+
+def pct_name(name):
+    return "".join("%%%02X" % b if needs_pct(chr(b)) else chr(b) for b in name.encode())
+
+
+def unpct(s):
+    import urllib.parse
+    try:
+        return urllib.parse.unquote_to_bytes(s).decode("utf-8")
+    except UnicodeDecodeError:
+        return None
+
+
+def rule_for(crypto, wire_name):
+    if crypto["alg"] != "none" and crypto.get("name") == wire_name:
+        return [(crypto["alg"], crypto.get("key", 0))] + [(a, k) for a, k in crypto.get("fallbacks", [])]
+    return None
+
+
+def wire_form(crypto, cookie_name):
+    """How a session cookie leaves under `crypto`: travelling name, protection, key, value percent-encoded."""
+    pe = crypto.get("percent_encode", True)
+    wire = pct_name(cookie_name) if pe else cookie_name
+    rule = rule_for(crypto, wire)
+    return {"wire": wire, "prot": rule[0][0] if rule else "plain", "key": rule[0][1] if rule else None, "pct": pe}
+
+
+def readable(crypto, cookie_name, w):
+    """Does a server running `crypto` get the session out of a cookie that left in wire form `w`?"""
+    pe = crypto.get("percent_encode", True)
+    rule = rule_for(crypto, w["wire"])
+    if rule is not None:
+        ok = w["prot"] != "plain" and (w["prot"], w["key"]) in rule
+    else:
+        ok = w["prot"] == "plain" and (pe or not w["pct"])
+    return ok and (unpct(w["wire"]) if pe else w["wire"]) == cookie_name
 
 
 def oracle(case, out):
@@ -410,7 +491,7 @@ def case_key(c):
 
 RULE = ("all 2x2x2 state policies x thresholds {none,0,1/8,1/4,1/2,3/4,1} x ttl {64,800,86400}; 1-8 requests, 0-12(+6) ops each "
         "over keys {a,b,c} and JSON values incl. null; cookie source jar(85%)/none/tampered value/replay of an older cookie; 4% external expiry; "
-        "remaining TTL biased to threshold-1..threshold+1; 15% typed API variants. non-trivial = at least 2 requests, a later request "
+        "remaining TTL biased to threshold-1..threshold+1; 15% typed API variants; 12% of the histories rotate the encryption key between requests (old key kept as fallback 85%). non-trivial = at least 2 requests, a later request "
         "runs on a session carried by a cookie, and at least one successful store write; distinct by full input")
 
 
